@@ -460,9 +460,9 @@ impl Pow<Self> for LazyBigint {
                 )
             }
             (Self::Short(s), Self::Long(b)) => {
-                Self::Long(BigInt::from(s).pow(BigUint::try_from(b).unwrap()))
+                Self::from(BigInt::from(s).pow(BigUint::try_from(b).unwrap()))
             }
-            (Self::Long(b), Self::Short(s)) => Self::Long(b.pow(BigUint::try_from(s).unwrap())),
+            (Self::Long(b), Self::Short(s)) => Self::from(b.pow(BigUint::try_from(s).unwrap())),
             (Self::Long(b0), Self::Long(b1)) => Self::Long(b0.pow(BigUint::try_from(b1).unwrap())),
         }
     }
